@@ -553,6 +553,11 @@ def run(spec, obs='light', clean_globals=True, check_args=False):
                            price=None if o.price is None else float(o.price), reduce_only=bool(o.reduce_only), status=o.status,
                            created_at=o.created_at, executed_at=o.executed_at, canceled_at=o.canceled_at, via=o.submitted_via))
     out = dict(result=result, error=error, trace=ctx.trace, final=ctx.final, orders=orders)
+    # jesse keeps Position objects alive in an lru_cache (Position._min_qty), and through them the strategy, its class and this context:
+    # drop the heavy references so that old sessions do not pin their traces in memory
+    ctx.trace, ctx.final, ctx.recorder, ctx.spec = None, None, None, None
+    ctx.strategies.clear()
+    rec.ctx, rec.events, rec.orders = None, None, []
     if check_args:
         after = _freeze(dict(config=config, routes=routes, data_routes=data, candles=candles, warmup_candles=warm, hyperparameters=hp_arg))
         out['args_modified'] = [k for k in after if after[k] != frozen[k]]
